@@ -49,6 +49,16 @@ def requests(L, rng, per_fn):
         ('RadioByName_summary', dict(s=['55Fe', '241Am', '109Cd', 'nope', '57Co', '', '244Cm', '238Pu', None])),
     ]:
         add(*c16.special_req(name, **kw))
+    # deterministic corner grid of the crystal functions (argument-check order: energy / Miller (0,0,0) / Debye / flags / NULL crystal)
+    cs3 = [CRYSTALS[0], CRYSTALS[len(CRYSTALS) // 2], 'Si', None]
+    g = [(c, e, h, rel, db) for c in cs3 for e in (-1.0, 0.0, 8.0) for h in ((0, 0, 0), (1, 1, 1), (-2, 0, 4)) for rel in (0.0, 1.0) for db in (-1.0, 1.0)]
+    C_ = [x[0] for x in g]; E_ = [x[1] for x in g]; H_ = [[x[2][k] for x in g] for k in range(3)]; R_ = [x[3] for x in g]; D_ = [x[4] for x in g]
+    add(*c16.special_req('Crystal_dSpacing', s=C_, i=H_))
+    add(*c16.special_req('Bragg_angle', s=C_, i=H_, d=[E_]))
+    add(*c16.special_req('Q_scattering_amplitude', s=C_, i=H_, d=[E_, R_]))
+    add(*c16.special_req('Crystal_F_H_StructureFactor', s=C_, i=H_, d=[E_, D_, R_]))
+    for fl in ((2, 2, 2), (0, 0, 0), (1, 0, 2), (3, 2, 2), (2, 1, 2), (2, 2, -1)):
+        add(*c16.special_req('Crystal_F_H_StructureFactor_Partial', s=C_, i=H_ + [[fl[0]] * len(g), [fl[1]] * len(g), [fl[2]] * len(g)], d=[E_, D_, R_]))
     return np.concatenate(reqs), strs
 
 
